@@ -1,7 +1,7 @@
 (* Property C10 — accepted DIDs and DID URLs are canonical, decomposable, free of stray parts.
    Pinned statements only.  Byte strings are lists of N; "did:" = [100;105;100;58], ':' = 58. *)
 From Coq Require Import List NArith Bool.
-From IdV Require Import Lib.Outcome Did.DidParse Proofs.DidProofs Proofs.DidUrlProofs Proofs.DidCompleteProofs Proofs.DidTotalProofs Proofs.DidSplitProofs.
+From IdV Require Import Lib.Outcome Did.DidParse Proofs.DidProofs Proofs.DidUrlProofs Proofs.DidCompleteProofs Proofs.DidTotalProofs Proofs.DidSplitProofs Proofs.DidPctProofs.
 Import ListNotations.
 Open Scope N_scope.
 
@@ -150,6 +150,35 @@ Theorem C10_join_total : forall u seg, did_url_join u seg <> Panic.
 Proof. exact join_total. Qed.
 Theorem C10_join_keeps_did : forall u seg j, did_url_join u seg = Ok j -> u_did j = u_did u /\ u_method j = u_method u /\ u_mid j = u_mid u.
 Proof. exact join_keeps_did. Qed.
+(* ---- the URL-level statements at full strength: EVERY byte string, percent-encoded triples included.  wfp_url: the DID is "did:" m ":" i with
+   m, i non-empty and valid (valid_method_name / valid_method_id), the path starts with '/', query and fragment are non-empty behind their
+   delimiter, each a valid segment of its class (class characters and well-formed triples) ---- *)
+Theorem C10_url_accepted_wfp : forall s u, did_url_split_parse s = Ok u -> wfp_url u.
+Proof. exact split_parse_wfp. Qed.
+Theorem C10_url_wfp_reparses : forall u, wfp_url u -> did_url_split_parse (did_url_to_string u) = Ok u.
+Proof. exact split_wfp_reparses. Qed.
+Theorem C10_url_accept_iff_pct : forall s, (exists u, did_url_split_parse s = Ok u) <-> exists u, wfp_url u /\ s = did_url_to_string u.
+Proof. exact split_accept_iff_pct. Qed.
+Theorem C10_set_path_reparses_pct : forall u v r, wfp_url u -> set_path v = Ok r ->
+  wfp_url (with_path u r) /\ did_url_split_parse (did_url_to_string (with_path u r)) = Ok (with_path u r).
+Proof. exact (fun u v r W S => conj (set_path_wfp u v r W S) (set_path_reparses_pct u v r W S)). Qed.
+Theorem C10_set_query_reparses_pct : forall u v r, wfp_url u -> set_query v = Ok r ->
+  wfp_url (with_query u r) /\ did_url_split_parse (did_url_to_string (with_query u r)) = Ok (with_query u r).
+Proof. exact (fun u v r W S => conj (set_query_wfp u v r W S) (set_query_reparses_pct u v r W S)). Qed.
+Theorem C10_set_fragment_reparses_pct : forall u v r, wfp_url u -> set_fragment v = Ok r ->
+  wfp_url (with_frag u r) /\ did_url_split_parse (did_url_to_string (with_frag u r)) = Ok (with_frag u r).
+Proof. exact (fun u v r W S => conj (set_fragment_wfp u v r W S) (set_fragment_reparses_pct u v r W S)). Qed.
+Theorem C10_join_sound_pct : forall u seg j, wfp_url u -> did_url_join u seg = Ok j ->
+  u_did j = u_did u /\ u_method j = u_method u /\ u_mid j = u_mid u /\ wfp_url j /\ did_url_split_parse (did_url_to_string j) = Ok j.
+Proof. exact join_sound_pct. Qed.
+Theorem C10_eq_iff_same_string_pct : forall u v, wfp_url u -> wfp_url v -> (url_eqb u v = true <-> did_url_to_string u = did_url_to_string v).
+Proof. exact url_eq_iff_string_pct. Qed.
+(* the percent-free notion used above is the special case, and the general one is inhabited by a value with triples in every component *)
+Theorem C10_wf_is_wfp : forall u, wf_url u -> wfp_url u.
+Proof. exact wf_url_wfp. Qed.
+Example C10_wfp_example : wfp_url {| u_did := [100;105;100;58;97;58;37;52;49]; u_method := [97]; u_mid := [37;52;49];
+                                     u_path := Some [47;112;37;50;70]; u_query := Some [63;113;61;37;52;49]; u_frag := Some [35;102;37;52;49] |}.
+Proof. exact wfp_example. Qed.
 (* the hypotheses are satisfiable: did:ab:c:d/p?q=1#f *)
 Example C10_wf_example : wf_parts [97; 98] [99; 58; 100] [47; 112] (Some [113; 61; 49]) (Some [102]).
 Proof. constructor; [split; [discriminate|reflexivity] | split; [discriminate|reflexivity] | right; eexists; split; reflexivity
@@ -197,6 +226,15 @@ Print Assumptions C10_did_total.
 Print Assumptions C10_did_former_route_included.
 Print Assumptions C10_join_total.
 Print Assumptions C10_join_keeps_did.
+Print Assumptions C10_url_accepted_wfp.
+Print Assumptions C10_url_wfp_reparses.
+Print Assumptions C10_url_accept_iff_pct.
+Print Assumptions C10_set_path_reparses_pct.
+Print Assumptions C10_set_query_reparses_pct.
+Print Assumptions C10_set_fragment_reparses_pct.
+Print Assumptions C10_join_sound_pct.
+Print Assumptions C10_eq_iff_same_string_pct.
+Print Assumptions C10_wf_is_wfp.
 Print Assumptions C10_eq_iff_ord_equal.
 Print Assumptions C10_ord_antisymmetric.
 Print Assumptions C10_eq_same_hash.
